@@ -4,14 +4,25 @@ package ios
 
 // Contracts for the deductive checker in /verif (comment-only file).
 
+// C09: all change commands accepted inside the guarded block, then write memory confirmed
 //vc:func (*State).ApplyCommands
 //vc:  requires[C11] !isCompareRun
+//vc:  assert[C09] at "s.writeMem()" @saveAfterAllAccepted accepted == old(accepted) + len(s.Changes)
+//vc:  set changesConfirmed = result == nil && accepted == old(accepted) + len(s.Changes) && strings.Contains(lastOutput, "[OK]")
+//vc:  ensures[C09] @nilOnlyIfSavedOK result == nil ==> changesConfirmed
+
+//vc:func (*State).ApplyCommands$1
+//vc:  requires[C11] !isCompareRun
+//vc:  invariant[C09] 1 "for _, chg := range s.Changes" accepted == old(accepted) + 1 + rangeindex && -1 <= rangeindex && rangeindex < len(s.Changes) && len(s.Changes) == old(len(s.Changes))
+//vc:  ensures[C09] @allChangesAccepted accepted == old(accepted) + len(s.Changes) && len(s.Changes) == old(len(s.Changes))
 //vc:func (*State).prepareDevice
 //vc:  requires[C11] !isCompareRun
 //vc:func (*State).writeMem
 //vc:  requires[C11] !isCompareRun
 //vc:func (*State).cmd
 //vc:  requires[C11] !isCompareRun
+//vc:  set accepted = accepted + 1
+//vc:  ensures[C09] accepted == old(accepted) + 1
 //vc:func (*State).sendReloadCmd
 //vc:  requires[C11] !isCompareRun
 //vc:func (*State).cancelReload
@@ -31,3 +42,19 @@ package ios
 //vc:  requires[C06] !nameChecked
 //vc:  ensures[C06] @hostnameVerified err == nil ==> nameChecked && checkedName == path.Base(spocFile)
 //vc:  ensures[C06] @missingBannerRecorded err == nil ==> (markerMissing ==> len(s.State.errUnmanaged) > 0)
+//vc:  ensures[C09] @unmanagedErrorNotNil err == nil && isnil(old(s.State.errUnmanaged)) && !isnil(s.State.errUnmanaged) ==> len(s.State.errUnmanaged) > 0 && s.State.errUnmanaged[0] != nil
+
+// ---- C09 ----
+//vc:spec func validOut(cmd string, out string) bool
+//vc:func isValidOutput
+//vc:  trusted
+//vc:  nopanic
+//vc:  modifies nothing
+//vc:  ensures result == validOut(cmd, out)
+
+// one reply is read and checked: banner removed, echo stripped, remainder empty or acceptable
+//vc:func (*State).cmd$1
+//vc:  ensures[C09] @replyCheckedValid lastRemainder == "" || validOut(ci, lastRemainder)
+
+//vc:func (*State).writeMem
+//vc:  ensures[C09] @savedConfirmedByOK strings.Contains(lastOutput, "[OK]")
